@@ -9,6 +9,7 @@
 From PahoV Require Import Base.Prelude Codec.Mid Conc.Sched Conc.SchedLemmas Conc.MidGen Conc.Handoff Conc.Wake
   Conc.ConnFirst Conc.LockOrder.
 From PahoV Require Conc.LockGraph Conc.LockGraphSound Gen.GenLockGraph Conc.LockOrderGraph.
+From PahoV Require Import Conc.AppReconnect.
 
 (* ------------------------------------------------------------------ 1. packet ids (also C14's thread clause) *)
 Theorem C07_mutual_exclusion : forall m0 l0 pipe0 nmsgs s i j p q, 0 <= m0 <= 65535 ->
@@ -180,6 +181,37 @@ Theorem C07_no_silent_loss : forall m0 l0 pipe0 nmsgs s,
 Proof. exact no_silent_loss. Qed.
 Print Assumptions C07_no_silent_loss.
 
+(* ------------------------------------------------------------------ 6. an APPLICATION thread calls reconnect() while the loop thread runs *)
+(* three kinds of threads (Conc/AppReconnect.v).  CONNECT first - FULL STATEMENT, FALSE: finding F-C07g, open.
+   _packet_write() pops a packet and only then reads self._sock in _sock_send(): a reconnect() on another thread in
+   between makes the loop thread write the popped packet on the NEW socket ahead of CONNECT *)
+Definition C07_app_connect_first_full : Prop := app_connect_first_full.
+
+Theorem C07_app_connect_first_refuted :
+  let a := arun witness_g (ainit 0 LWant O [1%nat]) in
+  wire (base a) = [(1, Connect 1); (2, Publish 0 0 1)] /\ wire_ok (wire (base a)) = false /\
+  out_packet (base a) = [Connect 2] /\ askipped witness_g (ainit 0 LWant O [1%nat]) = O.
+Proof. exact app_connect_first_refuted. Qed.
+Print Assumptions C07_app_connect_first_refuted.
+
+Theorem C07_app_connect_first_full_is_false : ~ C07_app_connect_first_full.
+Proof. exact app_connect_first_full_false. Qed.
+Print Assumptions C07_app_connect_first_full_is_false.
+
+(* ... holds for every schedule in which the loop thread is never inside _packet_write's loop (past the
+   `_connect_queued` gate: pc LPop or LSend) while the new socket exists and its CONNECT is not yet queued *)
+Theorem C07_app_connect_first_partial : forall m0 l0 pipe0 nmsgs s, steady l0 = true ->
+  asafe_run race_g s (ainit m0 l0 pipe0 nmsgs) = true ->
+  wire_ok (wire (base (arun s (ainit m0 l0 pipe0 nmsgs)))) = true.
+Proof. exact app_connect_first_partial. Qed.
+Print Assumptions C07_app_connect_first_partial.
+
+(* nothing is lost silently, every schedule, also with the application-thread reconnect *)
+Theorem C07_app_no_silent_loss : forall m0 l0 pipe0 nmsgs s,
+  conserved (base (arun s (ainit m0 l0 pipe0 nmsgs))) = true.
+Proof. exact app_no_silent_loss. Qed.
+Print Assumptions C07_app_no_silent_loss.
+
 (* ------------------------------------------------------------------ non-vacuity *)
 (* two publishers, ids wrap at 65535 while they interleave inside _mid_generate's critical section attempts;
    the loop thread writes both packets; the blocked picks (lock held, loop parked) are skipped *)
@@ -209,6 +241,13 @@ Example C07_nonvacuous_marked :
   let c := sched_run s (init_reconnect 0 [1%nat]) in
   marked c = [Publish 0 0 1] /\ wire c = [(1, Connect 1); (2, Connect 2)] /\ conserved c = true.
 Proof. exact drained_packet_is_marked. Qed.
+
+Example C07_nonvacuous_app_exclusion :
+  let s := repeat ACtl 4 ++ repeat (ABase (Pub 0)) 10 ++ repeat (ABase Loop) 5 ++ repeat ACtl 3 ++ repeat (ABase Loop) 8 in
+  let a0 := ainit 0 LWant O [1%nat] in
+  asafe_run race_g s a0 = true /\
+  wire (base (arun s a0)) = [(1, Connect 1); (2, Connect 2); (2, Publish 0 0 1)].
+Proof. exact app_exclusion_nonvacuous. Qed.
 
 Example C07_lock_edges :
   dedup client_edges = [(L_incb, L_cb); (L_out, L_incb); (L_out, L_cond); (L_out, L_time); (L_out, L_cb)].
